@@ -47,6 +47,23 @@ def run(ctx):
         ops.append("fpmtu\t%s\t%s\t1500" % (ver, mk(r, ver, None, extra=b"\x02\x03\x05\x01").hex()))    # malformed MSS
     ctx.correspond(ops, nontrivial=lambda l, a: a.startswith("mtu="), label="fpmtu", tagger=lambda l, a: "ERR" if a.startswith("ERR") else ("hit" if "match=none" not in a else "miss"))
     ctx.notes["exhaustive_subdomains"] = ["all 512 TCP flag values", "all 8 IPv4 flag combinations", "IPv4 header lengths 20..60"] + (["all MSS 0..65535 x both versions"] if not ctx.quick() else [])
+    # API level: the MTU section written as database TEXT - header repeated, other sections in between, duplicates
+    ops = []
+    hx = lambda t: t.encode().hex()
+    for _ in range(ctx.n(2500, 50000)):
+        vals = [r.choice([1500, 1492, 1400, 1300, 576, 1500]) for _ in range(r.randint(1, 6))]
+        lines, open_sec = [], False
+        for i, v in enumerate(vals):
+            if not open_sec or r.random() < 0.35:
+                if open_sec and r.random() < 0.5:
+                    lines += ["[tcp:request]", "label = s:unix:X:", "sig = *:64:0:*:*,*:mss:df,id+:0"]
+                lines.append("[mtu]")
+                open_sec = True
+            lines += [f"label = L{i}", f"sig = {v}"]
+        ver = r.choice("46")
+        mss = r.choice(vals + [1234]) - (40 if ver == "4" else 60)
+        ops.append("histq\tL:" + hx("\n".join(lines) + "\n") + "\tM:%s:%s" % (ver, mk(r, ver, mss, flags=r.choice([2, 0x12])).hex()))
+    ctx.correspond(ops, nontrivial=lambda l, a: "match=" in a and "match=none" not in a, label="fpmtu-db-text", tagger=lambda l, a: a.split(" ; ")[-1][:22])
     # impersonation
     ops = []
     pool = ["N", "N", "S", "W7", "W0", "T5.0", "T0.9", "K8", "K16", "E", "R77.0", "R254.2", "M1460", "M0", "M536", "M65535"]
